@@ -1548,6 +1548,8 @@ class FuncEmitter:
                 abort('call of own member function %s that was not extracted' % name, e)
             self.calls.add(cn)
             # parameters that are pointers (reference params) need &
+            # a defaulted argument (CXXDefaultArgExpr carries no expression in the dump): the callee's parameter default
+            args = [self.default_arg_of(cn, i, a, e) if a['kind'] == 'CXXDefaultArgExpr' else a for i, a in enumerate(e.get('inner', [])[1:])]
             return '%s(%s)' % (cn, ', '.join(['self'] + [self.arg_for_own(cn, i, a) for i, a in enumerate(args)]))
         bt = self.cls(base)
         # variables with special models
@@ -1751,6 +1753,16 @@ class FuncEmitter:
                 if ok:
                     return
         abort('emplace_back: element constructor is not a positional field initialisation', e)
+
+    def default_arg_of(self, cn, i, a, e):
+        for md in self.cx.methods:
+            if md['cname'] == cn:
+                ps = [x for x in md['node']['inner'] if x['kind'] == 'ParmVarDecl']
+                init = [x for x in ps[i].get('inner', []) if isinstance(x, dict) and x.get('kind', '').endswith(('Expr', 'Literal', 'Operator'))] if i < len(ps) else []
+                if len(init) == 1:
+                    return init[0]
+                abort('defaulted argument %d of %s: the default expression is not in the AST' % (i, cn), e)
+        abort('own method not found: ' + cn)
 
     def arg_for_own(self, cn, i, a):
         # own methods: find callee param kinds
